@@ -125,12 +125,12 @@ type Sim struct {
 	lastSamp map[int]string
 	initIDn  int
 
-	bubbleDone bool
+	bubbleDone       bool
 	disconnectCalled bool
-	ka *kaState
-	stalled []*dialReq
-	mux     mqtt.Handler
-	manualConnects int
+	ka               *kaState
+	stalled          []*dialReq
+	mux              mqtt.Handler
+	manualConnects   int
 }
 
 type opState struct {
